@@ -19,6 +19,10 @@ per file) says which definition each reference must reach.  Checked per path:
     rule; every namespace exists exactly once and is shared by all importers;
   * a model using every reference parses, with each `x` an instance of the
     prescribed definition (the keywords differ per definition).
+A second family of trees does the same for the special rule name Comment
+(definitions with different comment leaders in every subset of root.tx and its
+direct imports): the comments the model parser skips are those of the Comment
+rule the root grammar sees under the same order.
 """
 import os
 import tempfile
@@ -68,7 +72,10 @@ def resolve(ns, imports, defines):
     return None
 
 
-def file_text(ns, imports, defines):
+COMMENT_FILES = ['root', 'base', 'other', 'pkg.a', 'pkg.sub.deep']
+
+
+def file_text(ns, imports, defines, comments=()):
     lines = ['import %s' % stmt for stmt, _ in imports[ns]]
     target = resolve(ns, imports, defines)
     body = []
@@ -91,6 +98,9 @@ def file_text(ns, imports, defines):
     if target:
         # an alias-like rule (a single rule reference): abstract, inherited by exactly the X it denotes
         body.append("AX_%s: X;" % tag(ns))
+    if ns in comments:
+        # the special rule Comment: every definition has its own comment leader
+        body.append("Comment: /#%s#.*?$/;" % tag(ns))
     return '\n'.join(lines + body) + '\n'
 
 
@@ -106,7 +116,7 @@ def run(cfg):
             p = os.path.join(tmp, *ns.split('.')) + '.tx'
             os.makedirs(os.path.dirname(p), exist_ok=True)
             with open(p, 'w') as f:
-                f.write(file_text(ns, imports, defines))
+                f.write(file_text(ns, imports, defines, cfg.get('comments', ())))
         try:
             mm = metamodel_from_file(os.path.join(tmp, 'root.tx'))
         except Exception as e:  # noqa
@@ -173,6 +183,26 @@ def run(cfg):
                 for it, (_, ns, target) in zip(m.items, text):
                     if type(it).__name__ != 'U_' + tag(ns) or type(it.x) is not mm.namespaces[target]['X']:
                         problems.append('model object for %s has x of class %s' % (ns, type(it.x)._tx_fqn))
+        # the rule named Comment that the root grammar sees (same order as for any unqualified name) is
+        # the one the model parser skips
+        if cfg.get('comments'):
+            ctarget = resolve('root', imports, set(cfg['comments']))
+            for f in cfg['comments']:
+                src = 'nothing n #%s# remark\nnothing m' % tag(f)
+                try:
+                    mm.model_from_str(src)
+                    accepted = True
+                except Exception:  # noqa
+                    accepted = False
+                if accepted != (f == ctarget):
+                    problems.append("comments in the syntax of %s's Comment rule are %s, the root grammar's Comment is %s's"
+                                    % (f, 'skipped' if accepted else 'not skipped', ctarget))
+            if ctarget is not None:
+                try:
+                    if mm['Comment'] is not mm.namespaces[ctarget]['Comment']:
+                        problems.append("metamodel['Comment'] is not %s's rule" % ctarget)
+                except Exception as e:  # noqa
+                    problems.append("metamodel['Comment'] raised %s" % type(e).__name__)
         return problems
     finally:
         import shutil
@@ -189,13 +219,20 @@ def is_known_cycle(cfg, probs):
 
 
 def explore(item):
-    root_order, quick = item
+    root_order, quick = item[:2]
+    comment_family = len(item) > 2 and item[2]
     ctx = Ctx(10000, max_paths=20000, free_selectors=True)
 
     def path(c):
-        cfg = {'root_order': root_order, 'a_order': c.branch(z3.Bool('a_imports_reversed')),
-               'cycle': c.branch(z3.Bool('leaf_imports_deep_back')), 'diamond': c.branch(z3.Bool('root_imports_pkg_leaf'))}
-        cfg['defines'] = [f for f in MAY_DEFINE if c.branch(z3.Bool('defines_X_%s' % tag(f)))]
+        if comment_family:
+            # the special rule name Comment: definitions in every subset of the files the root grammar sees
+            cfg = {'root_order': root_order, 'a_order': False, 'cycle': False,
+                   'diamond': c.branch(z3.Bool('root_imports_pkg_leaf')), 'defines': ['base', 'pkg.sub.leaf']}
+            cfg['comments'] = [f for f in COMMENT_FILES if c.branch(z3.Bool('defines_Comment_%s' % tag(f)))]
+        else:
+            cfg = {'root_order': root_order, 'a_order': c.branch(z3.Bool('a_imports_reversed')),
+                   'cycle': c.branch(z3.Bool('leaf_imports_deep_back')), 'diamond': c.branch(z3.Bool('root_imports_pkg_leaf'))}
+            cfg['defines'] = [f for f in MAY_DEFINE if c.branch(z3.Bool('defines_X_%s' % tag(f)))]
         try:
             probs = run(cfg)
         except Exception as e:  # noqa
@@ -215,12 +252,13 @@ def main():
     import textx.lang as L
     chk = Check(PROP, 'exploration')
     quick = chk.tier == 'quick'
-    results = pmap(explore, [(ro, quick) for ro in range(3)])
+    results = pmap(explore, [(ro, quick) for ro in range(3)] + [(ro, quick, True) for ro in range(3)])
     chk.cov['functions_encoded'] = src_hash(MM.TextXMetaModel._new_import, MM.TextXMetaModel.__getitem__,
                                             MM.TextXMetaModel._enter_namespace, MM.TextXMetaModel._namespace_for_file_name,
                                             MM.metamodel_from_file, L.TextXVisitor.visit_import_stm)
     chk.cov['bounds'] = {'files': FILES, 'definitions_of_X': 'every subset of the 7 files', 'root_import_orders': 3,
-                         'pkg_a_import_orders': 2, 'cycle': [False, True], 'diamond': [False, True]}
+                         'pkg_a_import_orders': 2, 'cycle': [False, True], 'diamond': [False, True],
+                         'definitions_of_Comment': 'every subset of %s (own family of trees)' % COMMENT_FILES}
     chk.cov['outside_claim'] = ['other directory layouts / deeper nesting', 'more than one shared rule name',
                                 'grammars given as strings (imports need files)']
     chk.assumptions = ['finite space enumerated exhaustively (selectors unconstrained: z3 decides nothing)',
